@@ -211,6 +211,10 @@ def seg_nullable(seq):
     A segment that begins with `*` is not in the zone: the statement itself says `*` never matches an empty segment."""
     if not seq or seq[0] == A.STAR:
         return False
+    if seq[0][0] == 'ext' and seq[0][1] == '!':
+        # a segment that begins with a negation is not in the zone either: like a leading `*`, it must consume at least one
+        # character of its segment ("every segment of the path is matched by exactly one segment pattern")
+        return False
     return nullable(seq)
 
 
